@@ -27,6 +27,9 @@ MODS = [
     ('[amount:12500.25-12500.75]', [('amt', 'range', 12500.25, 12500.75)]),
     ('[amount=10250.75]', [('amt', 'eq', 10250.75)]),
     ('[amount>0.001]', [('amt', 'gt', 0.001)]),
+    # ranges written high-to-low: the loader accepts them and they match nothing - before and after the migration alike
+    ('[amount:100-50]', [('amt', 'range', 100.0, 50.0)]),
+    ('[date:2025-01-31..2025-01-01]', [('date', 'range', (2025, 1, 31), (2025, 1, 1))]),
 ]
 CORE_MODS = [0, 1, 5, 8, 11]
 PROFILES = [('C1', 'S1', ['ta']), ('C2', '', []), ('', '', ['tb'])]
